@@ -5,12 +5,12 @@ set -u
 HERE="$(cd "$(dirname "$0")/.." && pwd)"
 P="$1"; shift
 for v in "$@"; do
-  res="$("$HERE/tools/seed_verify.sh" "/tmp/wt/$P" "$v" 2>&1 | grep '^RESULT')"
+  res="$("$HERE/tools/seed_verify.sh" "${WT_ROOT:-/tmp/wt}/$P" "$v" 2>&1 | grep '^RESULT')"
   echo "$P-$v $res"
   case "$res" in
     *"suite=pass"*"demo-with-change=FAIL demo-without-change=pass"*)
       mkdir -p "$HERE/seeded/$P-$v"
-      cp "/tmp/wt/$P/SEED/$v/patch.diff" "/tmp/wt/$P/SEED/$v/demo.rs" "/tmp/wt/$P/SEED/$v/notes.md" "$HERE/seeded/$P-$v/"
+      cp "${WT_ROOT:-/tmp/wt}/$P/SEED/$v/patch.diff" "${WT_ROOT:-/tmp/wt}/$P/SEED/$v/demo.rs" "${WT_ROOT:-/tmp/wt}/$P/SEED/$v/notes.md" "$HERE/seeded/$P-$v/"
       echo "$res" > "$HERE/seeded/$P-$v/verify.txt"
       ;;
     *) echo "  NOT KEPT";;
